@@ -252,5 +252,7 @@ def run(chk):
     kernels(chk)
     step_wiring(chk)
     flux_index_spaces(chk)
+    from .. import lints as _l
+    _l.check_cache_keys(chk, U.ADV, "FluxSurfaceAdvection")
     chk.floor("F6-", 12)
     chk.floor("C-", 8)
